@@ -554,7 +554,10 @@ def cmd_call_args(req):
         cv = get_variable_values(schema, op.variable_definitions, variables or {})
         if isinstance(cv, list):
             return {"errors": [str(e.message)[:300] for e in cv], "rec": None}
-        res, _types = STATE["run"](query, variables, opname, req.get("plan") or {"null": 0.0, "lens": [1]}, rec=rec)
+        try:
+            res, _types = STATE["run"](query, variables, opname, req.get("plan") or {"null": 0.0, "lens": [1]}, rec=rec)
+        except BaseException as exc:  # noqa  (e.g. the sent document lacks a fragment definition: C02's subject)
+            return {"coerced": _jsonable(cv), "rec": None, "exec_exc": [type(exc).__name__, str(exc)[:300]]}
         return {"coerced": _jsonable(cv), "rec": rec, "exec_errors": [str(e.message)[:200] for e in (res.errors or [])][:3]}
 
     def handler(request: httpx.Request):
